@@ -143,6 +143,7 @@ type Interp struct {
 	initObjs   int
 	labelsSeen map[string]bool
 	inInit      *ssa.Package
+	stepBudget  int
 	log2Exp     map[int]Int
 	InitNotes   []string
 	pendingBind []Val
@@ -542,6 +543,7 @@ func (it *Interp) runPath(fn *ssa.Function) (end *pathEnd) {
 	it.inputs = it.inputs[:0]
 	it.steps = 0
 	it.loopBound = it.opt.LoopBound
+	it.stepBudget = 0
 	it.allocBudg = 1 << 24
 	it.obs = nil
 	it.depth = 0
